@@ -19,7 +19,10 @@ ID = "C07"
 REAL = ["Resampler.__init__/_calculate_window_end/resample", "frequenz.channels Timer(TriggerAllMissed)",
         "_StreamingHelper/_ResamplingHelper", "ComponentMetricsResamplingActor (actor variant)", "ChannelRegistry"]
 STUB = ["sources (channels fed by the harness)", "sinks (recording, with drawn latency)", "data sourcing actor"]
-RULE = ("one run = one Resampler (or resampling actor) with drawn period, align_to (UNIX_EPOCH / None / past / future), "
+RULE = ("one run = one Resampler (or resampling actor, or MovingWindow) with drawn period, align_to (UNIX_EPOCH / None / past / future / "
+        "in a daylight-saving zone), sources 1.4x / 4x / 10x faster than the period or delivering only every 3rd-5th period, stamps "
+        "= arrival time or a few us before the window end, max age 2 or 4 periods, a consumer slower than the period for half "
+        "the run (loop lags several periods), series removed / their source stopped / duplicate requests, "
         "creation instant on/around/off the grid, 1-3 series at creation plus series added while running, per-call sink "
         "latency 0..3.5 periods, loop stalls up to 4 periods (incl. exactly one period), then a calm phase; non-trivial = "
         "some tick fired at least half a period late or a series was added while running; distinct = abstract digest "
